@@ -187,6 +187,7 @@ def _split_top(s):
 
 
 NOOP_DEFAULTS = ("equal", "delete", "insert", "finish")
+ALL_DEFAULTS = NOOP_DEFAULTS + ("replace",)
 
 
 def _trait_defaults(repo):
@@ -217,11 +218,12 @@ def r4_trait(lines, origin, repo, relfile):
     kill = []
     for s in subs:
         mm = re.match(r'fn (\w+)', s.header)
-        if mm and mm.group(1) in NOOP_DEFAULTS and s.body_open is not None:
+        if mm and mm.group(1) in ALL_DEFAULTS and s.body_open is not None:
             body = text[s.body_open + 1:s.end - 1]
             # the rule only fires on a body that is a no-op: `let _ = x;`* `Ok(())`
+            # (the default `replace` body is not a no-op; it is dropped here as well and verified where it is inlined)
             stripped = re.sub(r'let _ = \w+;', '', body)
-            if stripped.split() != ['Ok(())']:
+            if mm.group(1) != 'replace' and stripped.split() != ['Ok(())']:
                 raise RewriteError("R4: default body of DiffHook::%s is not a no-op any more" % mm.group(1))
             a = text.count('\n', 0, s.body_open)
             bb = text.count('\n', 0, s.end - 1)
@@ -233,7 +235,7 @@ def r4_trait(lines, origin, repo, relfile):
         ind = re.match(r'\s*', out[bb]).group(0)
         out[a + 1:bb + 1] = [ind + ';']
         oo[a + 1:bb + 1] = [oo[bb]]
-        notes.append("R4 %s: no-op default body of DiffHook::%s dropped from the trait (inlined into impls that use it)" % (relfile, name))
+        notes.append("R4 %s: default body of DiffHook::%s dropped from the trait declaration (it is inlined, and verified, in every in-crate impl that does not override it)" % (relfile, name))
     return out, oo, notes
 
 
@@ -256,9 +258,10 @@ def r4_inline(lines, origin, repo, relfile):
     out, oo, notes = list(lines), list(origin), []
     close = text.count('\n', 0, im.end - 1)
     add, addo = [], []
-    for name in NOOP_DEFAULTS:
+    for name in ALL_DEFAULTS:
         if name not in have:
             seg, first = defaults[name]
+            # drop the leading #[inline(always)] attribute lines and doc comments of the default
             add += [''] + seg
             addo += [first] + [first + k for k in range(len(seg))]
             notes.append("R4i %s: default DiffHook::%s (hook.rs:%d) inlined" % (relfile, name, first))
@@ -393,6 +396,26 @@ def r0_name_return(lines, origin, repo, relfile):
     return out, oo, notes
 
 
+def r0n_nested_fn_brace(lines, origin, repo, relfile):
+    """A nested `fn f(..) {` (an fn item inside a fn body, result-less, header on one line): body brace on
+    its own line (whitespace only), so that requires/ensures can be spliced in.  Apply after R0 (which has
+    already moved the braces of all fns it knows; it does not descend into fn bodies)."""
+    out, oo, notes = [], [], []
+    pat = re.compile(r'^(\s+)fn \w+\([^{};]*\) \{\s*$')
+    for l, o in zip(lines, origin):
+        mm = pat.match(l)
+        if mm:
+            out.append(l.rstrip()[:-1].rstrip())
+            oo.append(o)
+            out.append(mm.group(1) + '{')
+            oo.append(o)
+            notes.append("R0n %s:%d nested fn: body brace moved to its own line" % (relfile, o))
+        else:
+            out.append(l)
+            oo.append(o)
+    return out, oo, notes
+
+
 def r8_loop_brace(lines, origin, repo, relfile):
     """while C {  /  for P in E {  /  loop {   ->  body brace on its own line (whitespace only), so
     that invariants can be spliced between the loop head and its body"""
@@ -451,14 +474,172 @@ def r8_loop_brace(lines, origin, repo, relfile):
     return out, oo, notes
 
 
+def _balanced(s):
+    """s is bracket-balanced at every prefix and has no code `=>` / `;` at depth 0."""
+    mask = rustscan.code_mask(s)
+    depth = 0
+    for p, c in enumerate(s):
+        if not mask[p]:
+            continue
+        if c in '([{':
+            depth += 1
+        elif c in ')]}':
+            depth -= 1
+            if depth < 0:
+                return False
+        elif depth == 0 and (c == ';' or s.startswith('=>', p)):
+            return False
+    return depth == 0
+
+
+def r5_slice_match(lines, origin, repo, relfile):
+    """match &v[..] { &[] | &[P { .. }] => A, _ => B }
+         ->  if v.len() == 0 || (v.len() == 1 && matches!(v[0], P { .. })) { A } else { B }
+    Only this shape: scrutinee `&IDENT[..]`, first arm `&[] | &[PATH { .. }]` (empty / one-element
+    slice patterns, no bindings, no guard), second and last arm `_`, one line per arm."""
+    head = re.compile(r'^(\s*)match &(\w+)\[\.\.\] \{\s*$')
+    arm1 = re.compile(r'^(\s*)&\[\] \| &\[((?:\w+::)*\w+) \{ \.\. \}\] => (.+?),?\s*$')
+    arm2 = re.compile(r'^(\s*)_ => (.+?),?\s*$')
+    out, oo, notes = [], [], []
+    i = 0
+    while i < len(lines):
+        l = lines[i]
+        mm = head.match(l)
+        if mm is None:
+            cm = rustscan.code_mask(l)
+            for bad in re.finditer(r'\bmatch\s*&.*\[\s*\.\.\s*\]|&\[[^\]]*\]\s*(\||=>)', l):
+                if cm[bad.start()]:
+                    raise RewriteError("R5: unknown slice-match shape at %s:%d: %s" % (relfile, origin[i], l.strip()))
+            out.append(l)
+            oo.append(origin[i])
+            i += 1
+            continue
+        ind, v = mm.group(1), mm.group(2)
+        if i + 3 >= len(lines):
+            raise RewriteError("R5: truncated match at %s:%d" % (relfile, origin[i]))
+        m1, m2 = arm1.match(lines[i + 1]), arm2.match(lines[i + 2])
+        if m1 is None or m2 is None or lines[i + 3] != ind + '}':
+            raise RewriteError("R5: `match &%s[..]` at %s:%d is not the known two-arm shape "
+                               "(`&[] | &[P { .. }] => A,` / `_ => B,` / `}`)" % (v, relfile, origin[i]))
+        pat, a, b = m1.group(2), m1.group(3), m2.group(2)
+        if not _balanced(a) or not _balanced(b):
+            raise RewriteError("R5: arm bodies at %s:%d-%d are not single balanced expressions" % (relfile, origin[i + 1], origin[i + 2]))
+        ind2 = m1.group(1)
+        out += ["%sif %s.len() == 0 || (%s.len() == 1 && matches!(%s[0], %s { .. })) {" % (ind, v, v, v, pat),
+                ind2 + a,
+                ind + "} else {",
+                ind2 + b,
+                ind + "}"]
+        oo += [origin[i], origin[i + 1], origin[i + 2], origin[i + 2], origin[i + 3]]
+        notes.append("R5 %s:%d `match &%s[..] { &[] | &[%s { .. }] => A, _ => B }` -> "
+                     "`if %s.len() == 0 || (%s.len() == 1 && matches!(%s[0], %s { .. })) { A } else { B }` (slice patterns)"
+                     % (relfile, origin[i], v, pat, v, v, v, pat))
+        i += 4
+    return out, oo, notes
+
+
+def r6_for_continue(lines, origin, repo, relfile):
+    """for x in E { B }   where `continue` occurs in B (and targets this loop)
+         ->  match IntoIterator::into_iter(E) { mut it__ =>
+             loop {
+                 let x = match Iterator::next(&mut it__) { Some(v__) => v__, None => break };
+                 B
+             } }
+    (the desugaring of `for` given in the Rust reference, "Iterator loops").  `for` loops without
+    `continue` are left alone.  Only: one-line head with an identifier pattern, no label, no loop
+    nested in B, unlabelled `continue;`, closing brace on its own line."""
+    text = '\n'.join(lines)
+    mask = rustscan.code_mask(text)
+    loops = []
+    for mm in re.finditer(r'\b(while|for|loop)\b', text):
+        p = mm.start()
+        if not mask[p]:
+            continue
+        q = p - 1
+        while q >= 0 and text[q] in ' \t':
+            q -= 1
+        if q >= 0 and text[q] not in ';{}\n:':
+            continue
+        if mm.group(1) == 'for' and re.match(r'for\s*<', text[p:]):
+            continue
+        k, depth = mm.end(), 0
+        while k < len(text):
+            if mask[k]:
+                c = text[k]
+                if c in '([':
+                    depth += 1
+                elif c in ')]':
+                    depth -= 1
+                elif c == '{' and depth == 0:
+                    break
+                elif c == ';' and depth == 0:
+                    k = -1
+                    break
+            k += 1
+        if k < 0 or k >= len(text):
+            continue
+        loops.append((p, mm.group(1), k, rustscan.match_close(text, mask, k)))
+    targets = []
+    for mm in re.finditer(r'\bcontinue\b', text):
+        c = mm.start()
+        if not mask[c]:
+            continue
+        encl = [lp for lp in loops if lp[2] < c < lp[3]]
+        ln = origin[text.count('\n', 0, c)]
+        if not encl:
+            raise RewriteError("R6: `continue` outside any loop at %s:%d" % (relfile, ln))
+        inner = max(encl, key=lambda lp: lp[2])
+        if inner[1] != 'for':
+            continue
+        if not re.match(r'continue\s*;', text[c:]):
+            raise RewriteError("R6: labelled or value `continue` at %s:%d" % (relfile, ln))
+        if inner not in targets:
+            targets.append(inner)
+    if not targets:
+        return list(lines), list(origin), []
+    if re.search(r'\b(it__|v__)\b', text):
+        raise RewriteError("R6: the names it__/v__ are already used in %s" % relfile)
+    out, oo, notes = list(lines), list(origin), []
+    pat = re.compile(r'^(\s*)for (\w+) in (.+) \{\s*$')
+    for p, kw, k, close in sorted(targets, reverse=True):
+        a, b = text.count('\n', 0, p), text.count('\n', 0, close)
+        where = "%s:%d" % (relfile, origin[a])
+        mm = pat.match(lines[a])
+        if mm is None or text.count('\n', 0, k) != a or not _balanced(mm.group(3)):
+            raise RewriteError("R6: `for` loop with `continue` at %s is not `for IDENT in EXPR {` on one line" % where)
+        if lines[b].strip() != '}':
+            raise RewriteError("R6: loop at %s does not close with `}` on its own line" % where)
+        if any(k < lp[2] and lp[3] < close for lp in loops):
+            raise RewriteError("R6: loop at %s contains a nested loop" % where)
+        if a + 1 >= b:
+            raise RewriteError("R6: empty loop body at %s" % where)
+        ind, x, e = mm.groups()
+        ind2 = re.match(r'\s*', lines[a + 1]).group(0)
+        if len(ind2) <= len(ind):
+            ind2 = ind + '    '
+        new = ["%smatch IntoIterator::into_iter(%s) { mut it__ =>" % (ind, e),
+               "%sloop {" % ind,
+               "%slet %s = match Iterator::next(&mut it__) { Some(v__) => v__, None => break };" % (ind2, x)]
+        out[b] = ind + '} }'
+        out[a:a + 1] = new
+        oo[a:a + 1] = [origin[a]] * 3
+        notes.append("R6 %s `for %s in %s { .. continue .. }` -> `match IntoIterator::into_iter(%s) { mut it__ => loop { "
+                     "let %s = match Iterator::next(&mut it__) { Some(v__) => v__, None => break }; .. } }` "
+                     "(Rust reference desugaring of `for`; Verus has no `continue` in `for`)" % (where, x, e, e, x))
+    return out, oo, notes
+
+
 RULES = {
     'R8': r8_loop_brace,
     'R0': r0_name_return,
+    'R0n': r0n_nested_fn_brace,
     'R1': r1_stepby,
     'R2': r2_refpat,
     'R2t': r2t_refpat_tuple,
     'R3': r3_debug_assert,
     'R4': r4_trait,
     'R4i': r4_inline,
+    'R5': r5_slice_match,
+    'R6': r6_for_continue,
     'R7': r7_derive,
 }
